@@ -162,7 +162,10 @@ def make_graph(topo, tidx, variant, nsrc):
     # product term in two modules only (v0: the first two, v1: the last two; degree <= 4) - the other Poly
     # modules are affine.  Graphs with <= 3 modules keep it everywhere.
     quad = list(range(M)) if M <= 3 else ([0, 1] if variant % 2 == 0 else [M - 2, M - 1])
-    return dict(nsrc=nsrc, mods=mods, nest=nest, lens=lens, quad=quad)
+    # Network(print_timing=...) takes a separate code path in response()/sensitivity(): off for v0, otherwise rotated over
+    # {True, a threshold that never prints, off}; for nested networks the inner one follows every other time
+    timing = False if variant == 0 else [True, 1e9, False][(tidx + variant) % 3]
+    return dict(nsrc=nsrc, mods=mods, nest=nest, lens=lens, quad=quad, timing=timing, timing_inner=bool((tidx // 3) % 2))
 
 
 def _graphs(tier):
@@ -197,6 +200,9 @@ def items(tier):
     for j in range(0, len(gs), n):
         chunk = gs[j:j + n]
         out.append(dict(kind="dag", id="%s..%s" % (chunk[0]["name"], chunk[-1]["name"].split("-", 1)[1]), first=j, graphs=chunk))
+    for nested in (False, True):
+        for seed in ("both", "y1", "y2"):
+            out.append(dict(kind="dyad-shared", id="dyad-shared-%s-%s" % ("nested" if nested else "flat", seed), nested=nested, seed=seed))
     return out
 
 
@@ -459,12 +465,14 @@ def build_network(g, srcvals, coefs):
             raise ValueError(t)
         mods.append(mod)
         sigs.extend(outs)
+    # the timing option selects a different code path in Network.response/sensitivity: rotate it deterministically
+    timing = g.get("timing", False)
     if g["nest"] is None:
-        net = pym.Network(*mods)
+        net = pym.Network(*mods, print_timing=timing)
     else:
         i, j = g["nest"]
-        inner = pym.Network(*mods[i:j])
-        net = pym.Network(*(mods[:i] + [inner] + mods[j:]))
+        inner = pym.Network(*mods[i:j], print_timing=(timing if g.get("timing_inner", True) else False))
+        net = pym.Network(*(mods[:i] + [inner] + mods[j:]), print_timing=timing)
     return net, sigs, mods
 
 
@@ -675,12 +683,67 @@ def sc_dag(V, P, cfg):
     return obs
 
 
-SCEN = {"dag": sc_dag}
+def sc_dyad_shared(V, P, cfg):
+    """Matrix-valued signals with dyadic (DyadCarrier) sensitivities: M1: K1 -> Y1 = c1*K1 (earlier module);
+    M2: (K1, K3) -> Y2 = K1 + K3, whose adjoint hands the SAME object to both inputs (allowed, see the suite's
+    test_identical_sensitivity).  Total derivatives: dK1 = c1*S1 + S2, dK3 = S2 - nothing may leak between them."""
+    import pymoto as pym
+    n = 2
+    nested = cfg.get("nested", False)
+    c1 = V.real("c1", nonzero=True, default=1.5)
+
+    class ScaleMat(pym.Module):
+        def _response(self, K):
+            return c1 * K
+
+        def _sensitivity(self, dY):
+            return c1 * dY
+
+    class AddMat(pym.Module):
+        def _response(self, A, B):
+            return A + B
+
+        def _sensitivity(self, dC):
+            return dC, dC
+
+    K1, K3 = pym.Signal("K1", V.reals("K1", (n, n))), pym.Signal("K3", V.reals("K3", (n, n)))
+    m1 = ScaleMat(K1)
+    m2 = AddMat([K1, K3])
+    net = pym.Network(pym.Network(m1), m2) if nested else pym.Network(m1, m2)
+    net.response()
+
+    def dy(name):
+        u, v = V.reals(name + "u", n, nonzero=True), V.reals(name + "v", n, nonzero=True)
+        return pym.DyadCarrier(u, v), np.outer(np.asarray(u), np.asarray(v))
+    S1, S1d = dy("S1")
+    S2, S2d = dy("S2")
+    which = cfg.get("seed", "both")
+    if which in ("both", "y1"):
+        m1.sig_out[0].sensitivity = S1
+    if which in ("both", "y2"):
+        m2.sig_out[0].sensitivity = S2
+    net.sensitivity()
+    exp1 = (c1 * S1d if which in ("both", "y1") else 0 * S1d) + (S2d if which in ("both", "y2") else 0 * S2d)
+    exp3 = S2d if which in ("both", "y2") else None
+    g1, g3 = K1.sensitivity, K3.sensitivity
+    obs = dict(g1=None if g1 is None else g1.todense(), g3=None if g3 is None else g3.todense())
+    if P is not None:
+        P.arrays_eq("dK1", g1.todense(), exp1, kind="dyad-total-derivative")
+        if exp3 is None:
+            P.holds("dK3.is-none", g3 is None, kind="dyad-total-derivative")
+        else:
+            P.arrays_eq("dK3", g3.todense(), exp3, kind="dyad-total-derivative")
+    return obs
+
+
+SCEN = {"dag": sc_dag, "dyad-shared": sc_dyad_shared}
 
 
 def run_item(cfg, tier):
     from .refs_merge import merge_discharged, prime_inspect_cache
     prime_inspect_cache()
+    if cfg["kind"] == "dyad-shared":
+        return symbolic_run(sc_dyad_shared, cfg, tier, max_paths=8)
     return merge_discharged(symbolic_run(SCEN[cfg["kind"]], cfg, tier, max_paths=4))
 
 
@@ -725,6 +788,15 @@ class _ProbeEnv(dict):
 
 
 def replay(cfg, label, env, case):
+    if cfg.get("kind") == "dyad-shared":
+        from .common import NumProver
+        Pn = NumProver()
+        sc_dyad_shared(Vals(env=env), Pn, cfg)
+        return Pn.verdict(label)
+    return _replay_dag(cfg, label, env, case)
+
+
+def _replay_dag(cfg, label, env, case):
     """Re-run the graph named in the label on the real library with floats; the expected total derivative
     comes from the hand-written forward-mode reference evaluated in floats.  Solver witnesses of polynomial
     disequalities can be numerically degenerate (difference ~1e-12); if the witness itself does not reproduce,
